@@ -79,6 +79,11 @@ static int validate_checksums(zckCtx *zck, zck_log_type bad_checksums) {
             continue;
         }
 
+        /* Read every chunk from its own offset, so a chunk cut short by the end
+         * of the file doesn't shift the chunks after it */
+        if(!seek_data(zck, zck->data_offset + idx->start, SEEK_SET))
+            return 0;
+
         if(!hash_init(zck, &(zck->check_chunk_hash), &(zck->chunk_hash_type)))
             return 0;
 
@@ -87,8 +92,15 @@ static int validate_checksums(zckCtx *zck, zck_log_type bad_checksums) {
             size_t rsize = BUF_SIZE;
             if(BUF_SIZE > idx->comp_length - rlen)
                 rsize = idx->comp_length - rlen;
-            if(read_data(zck, buf, rsize) != rsize)
+            ssize_t rb = read_data(zck, buf, rsize);
+            if(rb < 0)
+                return 0;
+            if((size_t)rb != rsize) {
+                /* The chunk's stored bytes aren't all there; never hash what
+                 * an earlier read left in the buffer */
                 zck_log(ZCK_LOG_DEBUG, "No more data");
+                break;
+            }
             if(!hash_update(zck, &(zck->check_chunk_hash), buf, rsize))
                 return 0;
             if(!zck->has_uncompressed_source) {
@@ -97,9 +109,12 @@ static int validate_checksums(zckCtx *zck, zck_log_type bad_checksums) {
             }
             rlen += rsize;
         }
-        int valid_chunk = validate_chunk(idx, bad_checksums);
-        if(!valid_chunk)
-            return 0;
+        int valid_chunk = -1;
+        if(rlen == idx->comp_length) {
+            valid_chunk = validate_chunk(idx, bad_checksums);
+            if(!valid_chunk)
+                return 0;
+        }
         idx->valid = valid_chunk;
         if(all_good && valid_chunk != 1)
             all_good = false;
@@ -415,7 +430,7 @@ int ZCK_PUBLIC_API zck_validate_data_checksum(zckCtx *zck) {
             size_t rb = BUF_SIZE;
             if(rb > to_read)
                 rb = to_read;
-            if(!read_data(zck, buf, rb))
+            if(read_data(zck, buf, rb) != rb)
                 return 0;
             if(!hash_update(zck, &(zck->check_full_hash), buf, rb))
                 return 0;
